@@ -140,7 +140,9 @@ def analyse_codec(f):
                 if inner:
                     # while(cursor < stream->size): consume until the stream is exhausted
                     cj = exprs.conjuncts(cond, True) if cond is not None else []
-                    until_end = any(cc[0] == '<=0' and cur in cc[1].atoms() and (sp + '->size') in cc[1].atoms() for cc in cj)
+                    # exactly  cursor < stream->size  (canonical: cursor - size + 1 <= 0); `cursor + 1 < size` would drop a trailing
+                    # one-item record (an empty vector at the end of a list)
+                    until_end = any(cc[0] == '<=0' and cc[1] == Poly.atom(cur) - Poly.atom(sp + '->size') + 1 for cc in cj)
                     out.append(('loop', ('count', 'until-end') if until_end else 'irregular', tuple(inner)))
             return
         if k == 'IfStmt':
